@@ -5,9 +5,11 @@ package main
 // on every path reaching this node").
 
 import (
+	"fmt"
 	"go/ast"
 	"go/token"
 	"go/types"
+	"strings"
 
 	"golang.org/x/tools/go/cfg"
 )
@@ -306,7 +308,7 @@ func assignedObjs(info *types.Info, n ast.Node) (objs []types.Object, hasCall bo
 		case *ast.CallExpr:
 			if !isConversion(info, s) {
 				name := calleeName(info, s)
-				if name != "builtin.len" && name != "builtin.cap" {
+				if name != "builtin.len" && name != "builtin.cap" && !pureStdlib(name) {
 					hasCall = true
 				}
 			}
@@ -488,7 +490,9 @@ func depsOf(info *types.Info, vi *varInfo, exprs ...ast.Expr) factDeps {
 				switch ob := o.(type) {
 				case *types.Var:
 					if ob.IsField() {
-						d.nonLocal = true
+						if immutableFields == nil || !immutableFields[ob] {
+							d.nonLocal = true
+						}
 					} else if ob.Parent() == ob.Pkg().Scope() {
 						d.nonLocal = true
 					} else {
@@ -499,7 +503,12 @@ func depsOf(info *types.Info, vi *varInfo, exprs ...ast.Expr) factDeps {
 					}
 				}
 			case *ast.SelectorExpr:
-				if _, ok := info.Selections[t]; ok {
+				if sel, ok := info.Selections[t]; ok {
+					if fv, isVar := sel.Obj().(*types.Var); isVar && fv.IsField() && immutableFields != nil && immutableFields[fv] {
+						// a field that is only ever set by composite literals:
+						// its value (and hence its length) cannot change under us
+						return true
+					}
 					d.nonLocal = true
 				}
 			case *ast.StarExpr:
@@ -530,14 +539,10 @@ var pureCallees = map[string]bool{
 // outermost enclosing function.
 func (fg *FGraph) SolveFacts(vi *varInfo) {
 	// universe
-	type fkey struct {
-		cond  ast.Expr
-		truth bool
-	}
 	var all []Fact
-	idx := map[fkey]int{}
+	idx := map[string]int{}
 	add := func(f Fact) int {
-		k := fkey{f.Cond, f.Truth}
+		k := fg.factKey(f)
 		if i, ok := idx[k]; ok {
 			return i
 		}
@@ -546,13 +551,21 @@ func (fg *FGraph) SolveFacts(vi *varInfo) {
 		return len(all) - 1
 	}
 	for _, f := range fg.InitFacts {
-		add(f)
+		for _, a := range atomise(f) {
+			add(a)
+		}
 	}
 	for _, n := range fg.Nodes {
 		for _, e := range n.Succ {
 			if e.Cond != nil {
-				add(Fact{e.Cond, e.Tag, true})
-				add(Fact{e.Cond, e.Tag, false})
+				for _, a := range atomise(Fact{e.Cond, e.Tag, true}) {
+					add(a)
+					add(Fact{a.Cond, a.Tag, !a.Truth})
+				}
+				for _, a := range atomise(Fact{e.Cond, e.Tag, false}) {
+					add(a)
+					add(Fact{a.Cond, a.Tag, !a.Truth})
+				}
 			}
 		}
 	}
@@ -592,7 +605,9 @@ func (fg *FGraph) SolveFacts(vi *varInfo) {
 	}
 	in[fg.Entry] = factSet{}
 	for _, f := range fg.InitFacts {
-		in[fg.Entry][add(f)] = true
+		for _, a := range atomise(f) {
+			in[fg.Entry][add(a)] = true
+		}
 	}
 	transfer := func(i int, s factSet) factSet {
 		o := factSet{}
@@ -649,11 +664,10 @@ func (fg *FGraph) SolveFacts(vi *varInfo) {
 						s[f] = true
 					}
 					if e.Cond != nil {
-						fi := add(Fact{e.Cond, e.Tag, e.Truth})
-						// the condition is evaluated in node p; if p also
-						// assigns something the fact mentions, do not add.
-						s[fi] = true
-						delete(s, add(Fact{e.Cond, e.Tag, !e.Truth}))
+						for _, a := range atomise(Fact{e.Cond, e.Tag, e.Truth}) {
+							s[add(a)] = true
+							delete(s, add(Fact{a.Cond, a.Tag, !a.Truth}))
+						}
 					}
 					if first {
 						cur = s
@@ -709,6 +723,235 @@ func (fg *FGraph) FactsAt(id int) []Fact {
 	var out []Fact
 	for f := range fg.factsIn[id] {
 		out = append(out, fg.allFactsList[f])
+	}
+	return out
+}
+
+// immutableFields is the set of struct fields of the repository that are
+// never assigned after construction (no `x.f = ..`, `x.f++`, `&x.f`, and no
+// whole-struct store `*p = T{..}` / `v = T{..}` for their struct type except
+// as a variable's initialisation). Computed once per loaded configuration.
+var immutableFields map[*types.Var]bool
+
+func computeImmutableFields(c *Ctx) {
+	written := map[*types.Var]bool{}
+	all := map[*types.Var]bool{}
+	markStruct := func(t types.Type) {
+		if t == nil {
+			return
+		}
+		if p, ok := t.Underlying().(*types.Pointer); ok {
+			t = p.Elem()
+		}
+		if st, ok := t.Underlying().(*types.Struct); ok {
+			for i := 0; i < st.NumFields(); i++ {
+				written[st.Field(i)] = true
+			}
+		}
+	}
+	for _, p := range c.Pkgs {
+		info := p.TypesInfo
+		sc := p.Types.Scope()
+		for _, n := range sc.Names() {
+			if tn, ok := sc.Lookup(n).(*types.TypeName); ok {
+				if st, ok := tn.Type().Underlying().(*types.Struct); ok {
+					for i := 0; i < st.NumFields(); i++ {
+						all[st.Field(i)] = true
+					}
+				}
+			}
+		}
+		for _, f := range p.Syntax {
+			ast.Inspect(f, func(n ast.Node) bool {
+				switch t := n.(type) {
+				case *ast.AssignStmt:
+					for _, l := range t.Lhs {
+						l = ast.Unparen(l)
+						if fv := fieldVar(info, l); fv != nil {
+							written[fv] = true
+						}
+						switch lt := l.(type) {
+						case *ast.StarExpr:
+							markStruct(info.TypeOf(lt))
+						case *ast.Ident:
+							if t.Tok != token.DEFINE {
+								// v = T{..} re-binds every field of a struct variable
+								if tv := info.TypeOf(lt); tv != nil {
+									if _, isStruct := tv.Underlying().(*types.Struct); isStruct {
+										markStruct(tv)
+									}
+								}
+							}
+						case *ast.IndexExpr:
+							// element store into a field-held slice/array/map: the field's *length* is
+							// unchanged for slices/arrays; nothing to mark
+						}
+					}
+				case *ast.IncDecStmt:
+					if fv := fieldVar(info, t.X); fv != nil {
+						written[fv] = true
+					}
+				case *ast.UnaryExpr:
+					if t.Op == token.AND {
+						if fv := fieldVar(info, t.X); fv != nil {
+							written[fv] = true
+						}
+					}
+				case *ast.RangeStmt:
+					if t.Key != nil {
+						if fv := fieldVar(info, t.Key); fv != nil {
+							written[fv] = true
+						}
+					}
+					if t.Value != nil {
+						if fv := fieldVar(info, t.Value); fv != nil {
+							written[fv] = true
+						}
+					}
+				}
+				return true
+			})
+		}
+	}
+	immutableFields = map[*types.Var]bool{}
+	for f := range all {
+		if !written[f] {
+			immutableFields[f] = true
+		}
+	}
+}
+
+// pureStdlib: library functions that neither call back into the program nor
+// write memory reachable from it.
+func pureStdlib(name string) bool {
+	return hasPrefixAny(name, "strings.Index", "strings.LastIndex", "strings.Count", "strings.Contains", "strings.HasPrefix", "strings.HasSuffix",
+		"strings.TrimSpace", "strings.ToLower", "strings.ToUpper", "bytes.Index", "bytes.LastIndex", "bytes.Count", "strconv.Itoa", "strconv.Atoi",
+		"strconv.ParseInt", "strconv.ParseFloat", "strconv.FormatInt", "strconv.FormatFloat", "math.", "unicode.", "unicode/utf8.", "builtin.min", "builtin.max",
+		"rare/pkg/color.StrLen")
+}
+
+// atomise splits a fact into atomic facts: !X, (A && B) true, (A || B) false.
+func atomise(f Fact) []Fact {
+	if f.Tag != nil {
+		return []Fact{f}
+	}
+	c := ast.Unparen(f.Cond)
+	switch t := c.(type) {
+	case *ast.UnaryExpr:
+		if t.Op == token.NOT {
+			return atomise(Fact{t.X, nil, !f.Truth})
+		}
+	case *ast.BinaryExpr:
+		if t.Op == token.LAND && f.Truth {
+			return append(atomise(Fact{t.X, nil, true}), atomise(Fact{t.Y, nil, true})...)
+		}
+		if t.Op == token.LOR && !f.Truth {
+			return append(atomise(Fact{t.X, nil, false}), atomise(Fact{t.Y, nil, false})...)
+		}
+	}
+	return []Fact{{c, nil, f.Truth}}
+}
+
+// factKey gives equivalent spellings of one comparison the same identity:
+// `a >= b` false, `a < b` true and `b > a` true are one fact. Identifiers are
+// pinned to their objects so that shadowed names stay distinct.
+func (fg *FGraph) factKey(f Fact) string {
+	pin := func(e ast.Expr) string {
+		var sb strings.Builder
+		sb.WriteString(exprStr(e))
+		ast.Inspect(e, func(n ast.Node) bool {
+			if id, ok := n.(*ast.Ident); ok {
+				if o := fg.Info.Uses[id]; o != nil {
+					if _, isVar := o.(*types.Var); isVar {
+						fmt.Fprintf(&sb, "@%d", o.Pos())
+					}
+				}
+			}
+			return true
+		})
+		return sb.String()
+	}
+	if f.Tag != nil {
+		return fmt.Sprintf("tag:%s==%s:%v", pin(f.Tag), pin(f.Cond), f.Truth)
+	}
+	c := ast.Unparen(f.Cond)
+	if be, ok := c.(*ast.BinaryExpr); ok {
+		op := be.Op
+		switch op {
+		case token.LSS, token.LEQ, token.GTR, token.GEQ, token.EQL, token.NEQ:
+			if !f.Truth {
+				op = negateTok(op)
+			}
+			l, r := pin(be.X), pin(be.Y)
+			if l > r {
+				l, r = r, l
+				switch op {
+				case token.LSS:
+					op = token.GTR
+				case token.GTR:
+					op = token.LSS
+				case token.LEQ:
+					op = token.GEQ
+				case token.GEQ:
+					op = token.LEQ
+				}
+			}
+			return l + " " + op.String() + " " + r
+		}
+	}
+	return fmt.Sprintf("%s=%v", pin(c), f.Truth)
+}
+
+func negateTok(op token.Token) token.Token {
+	switch op {
+	case token.LSS:
+		return token.GEQ
+	case token.LEQ:
+		return token.GTR
+	case token.GTR:
+		return token.LEQ
+	case token.GEQ:
+		return token.LSS
+	case token.EQL:
+		return token.NEQ
+	case token.NEQ:
+		return token.EQL
+	}
+	return op
+}
+
+// FactsAtPos returns the branch facts known when the expression at pos is
+// evaluated: the facts on entry to its CFG node plus, for positions inside the
+// right operand of a short-circuit operator within that node, the outcome of
+// the left operand (go/cfg keeps a whole condition in one node).
+func (fg *FGraph) FactsAtPos(pos token.Pos) []Fact {
+	id := fg.NodeOf(pos)
+	if id < 0 {
+		return nil
+	}
+	out := fg.FactsAt(id)
+	n := fg.Nodes[id].N
+	var walk func(e ast.Node)
+	walk = func(e ast.Node) {
+		ast.Inspect(e, func(x ast.Node) bool {
+			if x == nil {
+				return false
+			}
+			if _, isLit := x.(*ast.FuncLit); isLit {
+				return false
+			}
+			be, ok := x.(*ast.BinaryExpr)
+			if !ok || (be.Op != token.LAND && be.Op != token.LOR) {
+				return true
+			}
+			if within(be.Y, pos) {
+				out = append(out, atomise(Fact{be.X, nil, be.Op == token.LAND})...)
+			}
+			return true
+		})
+	}
+	if n != nil {
+		walk(n)
 	}
 	return out
 }
